@@ -110,6 +110,8 @@ func (s *Sim) check(what string) {
 		s.justifyRelay(e, old, cur, what)
 	}
 
+	s.w.checkCache(cur, what)
+
 	for _, scid := range cur.scids() {
 		c := cur.chans[scid]
 		s.everChan[scid] = c
